@@ -11,7 +11,8 @@
    fails on the pinned one).  All theorems are for tables of ANY size. *)
 From Coq Require Import ZArith List Bool.
 From VV Require Import Csv.CsvDefs Csv.CsvProofs Csv.IngestProofs Csv.TableProofs Csv.TextProofs
-  Csv.SniffProofs Csv.TopProofs Csv.XrffProofs.
+  Csv.SniffProofs Csv.TopProofs Csv.XrffProofs Csv.EndToEndCsv Csv.EndToEndXrff Csv.HeaderProofs Csv.GenTie
+  Gen.CsvConsts.
 Import ListNotations.
 Local Open Scope Z_scope.
 
@@ -162,6 +163,64 @@ Theorem C09_read_csv_rendered_table :
 Proof. exact read_csv_rendered_table_lemma. Qed.
 Print Assumptions C09_read_csv_rendered_table.
 
+(* END TO END, from the bytes of the table to the examples: for every typed rectangular
+   table (any size, any usual delimiter, any output index or none, numeric / text / void
+   columns, any quoting-free or RFC-4180 rendering, header or not) with -- for
+   classification -- at least two distinct labels ([two_classes]), the WHOLE read_csv
+   (record parsing, the loop, the final is_valid()/non-empty test) returns Ok with exactly
+   one example per data row, in order, inputs = the cells of the non-output non-void columns
+   in original order, output = the designated column.  The preconditions are satisfiable:
+   EndToEndCsv.EndToEndSanity instantiates the header theorem on the bytes
+   "a,b,y\n12,foo,cat\n7,bar,dog\n5,baz,cat\n"; with a single label the read is rejected
+   (Example one_class_rejected). *)
+Theorem C09_read_csv_end_to_end_header :
+  forall is_number stod stoi n, (1 <= n)%nat -> forall kinds dl oi h r1 rest,
+  explicit_dialect dl true ->
+  Forall (renderable (delimiter dl)) (h :: r1 :: rest) ->
+  length (arrange oi (map (field_out dl) h)) = n ->
+  row_ok is_number stod n kinds true (arrange oi (map (field_out dl) r1)) ->
+  Forall (fun r => row_ok is_number stod n kinds false (arrange oi r)) (parsed dl rest) ->
+  (forall k, oi = Some k -> Forall (fun r => (k < length r)%nat) (h :: r1 :: rest)) ->
+  two_classes kinds dl oi (r1 :: rest) ->
+  exists df,
+    read_csv is_number stod stoi fixed_v (render_table (delimiter dl) (h :: r1 :: rest))
+             {| p_dialect := dl; p_filter := no_filter; p_output_index := oi |} = Ok df
+    /\ dataset df = fst (spec_rows stod n kinds [] (map (arrange oi) (parsed dl (r1 :: rest))))
+    /\ classes df = snd (spec_rows stod n kinds [] (map (arrange oi) (parsed dl (r1 :: rest))))
+    /\ length (dataset df) = length (r1 :: rest)
+    /\ length (columns df) = n
+    /\ (forall j c, nth_error (columns df) j = Some c ->
+          c_domain c = dom_of j (kinds j) /\ c_name c = trim (nth j (arrange oi (map (field_out dl) h)) [])).
+Proof. exact read_csv_end_to_end_header_lemma. Qed.
+Print Assumptions C09_read_csv_end_to_end_header.
+
+Theorem C09_read_csv_end_to_end :
+  forall is_number stod stoi n, (1 <= n)%nat -> forall kinds dl oi r1 rest,
+  explicit_dialect dl false ->
+  Forall (renderable (delimiter dl)) (r1 :: rest) ->
+  row_ok is_number stod n kinds true (arrange oi (map (field_out dl) r1)) ->
+  Forall (fun r => row_ok is_number stod n kinds false (arrange oi r)) (parsed dl rest) ->
+  (forall k, oi = Some k -> Forall (fun r => (k < length r)%nat) (r1 :: rest)) ->
+  two_classes kinds dl oi (r1 :: rest) ->
+  exists df,
+    read_csv is_number stod stoi fixed_v (render_table (delimiter dl) (r1 :: rest))
+             {| p_dialect := dl; p_filter := no_filter; p_output_index := oi |} = Ok df
+    /\ dataset df = fst (spec_rows stod n kinds [] (map (arrange oi) (parsed dl (r1 :: rest))))
+    /\ classes df = snd (spec_rows stod n kinds [] (map (arrange oi) (parsed dl (r1 :: rest))))
+    /\ length (dataset df) = length (r1 :: rest)
+    /\ length (columns df) = n
+    /\ (forall j c, nth_error (columns df) j = Some c -> c_domain c = dom_of j (kinds j) /\ c_name c = []).
+Proof. exact read_csv_end_to_end_lemma. Qed.
+Print Assumptions C09_read_csv_end_to_end.
+
+(* invariant of the loop for ALL inputs (no typing): a column without a domain never
+   collects states, so columns_info::is_valid() holds of every frame the loop returns *)
+Theorem C09_void_columns_have_no_states :
+  forall is_number stod stoi v oi hh recs df,
+  ingest is_number stod stoi v oi hh recs O empty_df = Ok df -> void_states_inv (columns df).
+Proof. exact ingest_void_states_lemma. Qed.
+Print Assumptions C09_void_columns_have_no_states.
+
 (* ------------------------------------------------------------------ variables *)
 (* The variable generated for column i reads, from ANY example built by to_example with
    the same columns, the converted cell i of the record -- for ANY columns (void columns
@@ -289,6 +348,105 @@ Theorem C09_read_xrff_two_classes :
 Proof. exact xrff_attrs_two_classes_lemma. Qed.
 Print Assumptions C09_read_xrff_two_classes.
 
+(* END TO END for XRFF, from ANY DOM to the examples: attributes without class="yes" (the
+   last one is the output) or with exactly one; every instance the filter keeps has one
+   value per attribute and its cells convert ([inst_ok]: stod/stoi succeed where the
+   attribute is numeric/integer; nominal/string cells are arbitrary); the output cells are
+   all numbers, or all labels with two distinct ones ([out_kind_ok]).  Then read_xrff
+   returns the frame [xrff_frame] = one example per kept instance, in order, inputs = the
+   converted cells of the non-output attributes with a domain in original order, output =
+   the converted output cell or the class id, and the count = number of kept instances.
+   ([xrff_frame], [example_of] are defined by structural recursion over columns and rows,
+   not through the model's loops; EndToEndXrff.Sanity.xrff_sanity meets every hypothesis;
+   with one label the count is 0, with a number among labels bad_variant_access.) *)
+Theorem C09_read_xrff_end_to_end_class_yes :
+  forall is_number stod stoi pre a post insts flt,
+  Forall (fun x => xa_class_yes x = false) (pre ++ post) -> xa_class_yes a = true ->
+  let cols := attr_column true a :: map (attr_column false) (pre ++ post) in
+  let k := length pre in
+  let rows := filter_map flt insts in
+  Forall (inst_ok is_number stod stoi cols k) rows ->
+  out_kind_ok is_number cols (map (arrange (Some k)) rows) ->
+  read_xrff is_number stod stoi fixed_v {| x_attributes := Some (pre ++ a :: post); x_instances := Some insts |} flt =
+  Ok (xrff_frame is_number stod stoi cols (map (arrange (Some k)) rows), length rows).
+Proof. exact read_xrff_end_to_end_one_class_lemma. Qed.
+Print Assumptions C09_read_xrff_end_to_end_class_yes.
+
+Theorem C09_read_xrff_end_to_end_last :
+  forall is_number stod stoi attrs (d : xattr) insts flt,
+  attrs <> [] -> Forall (fun x => xa_class_yes x = false) attrs ->
+  let cols := attr_column false (last attrs d) :: map (attr_column false) (removelast attrs) in
+  let k := (length attrs - 1)%nat in
+  let rows := filter_map flt insts in
+  Forall (inst_ok is_number stod stoi cols k) rows ->
+  out_kind_ok is_number cols (map (arrange (Some k)) rows) ->
+  read_xrff is_number stod stoi fixed_v {| x_attributes := Some attrs; x_instances := Some insts |} flt =
+  Ok (xrff_frame is_number stod stoi cols (map (arrange (Some k)) rows), length rows).
+Proof. exact read_xrff_end_to_end_no_class_lemma. Qed.
+Print Assumptions C09_read_xrff_end_to_end_last.
+
+(* ------------------------------------------------------------------ has_header, characterised *)
+(* FULL characterisation of the voting heuristic, for EVERY text: the answer is HAS_HEADER
+   iff the sum of the per-column votes is positive, where a column's tag is the fold of the
+   C++ tag update over its cells in the looked-at rows (the first lines+2 rows of the
+   header's width) and its vote is the C++ switch on (tag, header cell). *)
+Theorem C09_has_header_is_column_vote :
+  forall is_number text lines delim header rows,
+  sniff_input delim text header rows ->
+  sniff_has_header is_number text lines delim =
+  Ok (if 0 <? total_vote is_number header (looked (length header) lines rows) then HAS_HEADER else NO_HEADER).
+Proof. exact sniff_has_header_columns. Qed.
+Print Assumptions C09_has_header_is_column_vote.
+
+(* Agreement sniffed = explicit, as wide as the rule allows (PARTIAL by nature: outside
+   these classes the heuristic provably answers wrongly, see Refuted_C09.v).  Column
+   classes (HeaderProofs; blank cells = missing values are ignored in every class):
+   votes_plus  = numeric letter-free data under a non-numeric name | numeric data under a
+                 name that is neither capitalized nor upper-case | fixed-width text under a
+                 name of another length | capitalized name over lower-case cells | blank
+                 column under a non-empty name;
+   votes_minus = letter-free numbers under a letter-free number | fixed-width text whose
+                 first row has that width | blank column under an empty first cell;
+   cls_variable_text (no vote) may be mixed in freely. *)
+Theorem C09_has_header_agrees_with_header_partial :
+  forall is_number text lines delim header rows,
+  sniff_input delim text header rows ->
+  columns_all (fun h cells => votes_plus is_number h cells \/ cls_variable_text is_number h cells)
+              header (looked (length header) lines rows) ->
+  columns_some (votes_plus is_number) header (looked (length header) lines rows) ->
+  sniff_has_header is_number text lines delim = Ok HAS_HEADER.
+Proof. exact has_header_agrees_with_header. Qed.
+Print Assumptions C09_has_header_agrees_with_header_partial.
+
+Theorem C09_has_header_agrees_without_header_partial :
+  forall is_number text lines delim header rows,
+  sniff_input delim text header rows ->
+  columns_all (fun h cells => votes_minus is_number h cells \/ cls_variable_text is_number h cells)
+              header (looked (length header) lines rows) ->
+  sniff_has_header is_number text lines delim = Ok NO_HEADER.
+Proof. exact has_header_agrees_without_header. Qed.
+Print Assumptions C09_has_header_agrees_without_header_partial.
+
+(* ------------------------------------------------------------------ tie: regenerated constants *)
+(* coq/Gen/CsvConsts.v is regenerated from utility/pocket_csv.h and dataframe.cc on every
+   run; the model's literals are those of the source (this stops compiling when the
+   delimiter list or its order, the number of sniffed lines, the 3:2 consistency test, the
+   "no delimiter" result, the quote character, the column tags, the number of records seen
+   by columns_info::build or the weka type table change in the source). *)
+Theorem C09_constants_match_source :
+  preferred = gen_preferred /\ candidates_sorted = z_sort gen_preferred /\
+  (forall text lines, guess_delimiter text lines = guess_delimiter_gen text lines) /\
+  (forall is_number text,
+     sniffer is_number text =
+     (let d := guess_delimiter_gen text gen_sniff_lines in
+      bind (sniff_has_header is_number text gen_sniff_lines d)
+           (fun h => Ok {| delimiter := d; trim_ws := false; has_header := h; quoting := REMOVE_QUOTES |}))) /\
+  (none_tag = gen_none_tag /\ skip_tag = gen_skip_tag /\ number_tag = gen_number_tag /\ string_tag = gen_string_tag) /\
+  (gen_quote = 34 /\ gen_build_records = 10%nat) /\
+  (forall n, from_weka n = weka_lookup gen_weka gen_weka_default n).
+Proof. exact constants_match_source_lemma. Qed.
+Print Assumptions C09_constants_match_source.
+
 (* ------------------------------------------------------------------ non-vacuity *)
 (* a record with an embedded delimiter, doubled quotes and leading/trailing blanks *)
 Example C09_parse_render_nonvacuous :
@@ -311,3 +469,10 @@ Proof. exact setup_terminals_total. Qed.
 (* guess_delimiter: "a;b\n1;2\n" has one ';' per line and no other candidate *)
 Example C09_guess_delimiter_nonvacuous : guess_delimiter [97; 59; 98; 10; 49; 59; 50; 10] 20 = 59.
 Proof. vm_compute. reflexivity. Qed.
+
+(* the end-to-end theorems' hypotheses are satisfiable (concrete bytes / DOM) *)
+Example C09_end_to_end_nonvacuous := EndToEndSanity.end_to_end_sanity.
+Example C09_xrff_end_to_end_nonvacuous := EndToEndXrff.Sanity.xrff_sanity.
+(* mixed tables with and without header through the agreement theorems *)
+Example C09_has_header_with_nonvacuous := HeaderProofs.ex_mixed_with_header_by_theorem.
+Example C09_has_header_without_nonvacuous := HeaderProofs.ex_mixed_without_header_by_theorem.
